@@ -41,6 +41,14 @@ func (e *Engine) ghostGet(st *State, name string, key *smt.Term) *smt.Term {
 }
 
 func (e *Engine) ghostSet(st *State, name string, key, v *smt.Term) {
+	if e.curFrame != nil && e.quiet == 0 {
+		switch name {
+		case gCount:
+			e.frameCheckRef(e.curFrame, st, key, "wstream", "")
+		case gPos:
+			e.frameCheckRef(e.curFrame, st, key, "rstream", "")
+		}
+	}
 	st.Heap[name] = e.C.Store(e.ghost(st, name), key, v)
 }
 
@@ -96,6 +104,11 @@ func (e *Engine) readN(st *State, key, n *smt.Term, hint string) (ok, start *smt
 		c.Implies(c.Not(ok), c.Or(c.Not(c.Eq(adv, n)), c.True()))))
 	e.ghostSet(st, gPos, key, bvadd(c, pos, adv))
 	return ok, pos, errv
+}
+
+// bufferInv: for a *bytes.Buffer the readable extent is what has been written (kept by syncBuffer on every write).
+func (e *Engine) bufferInv(st *State, key *smt.Term) {
+	e.assume(st, e.C.Eq(e.ghostGet(st, pAvail, key), e.ghostGet(st, gCount, key)))
 }
 
 func (e *Engine) writerCount(st *State, key *smt.Term) *smt.Term {
@@ -182,6 +195,7 @@ func init() {
 			arr := e.heapArr(st, elemName(types.Typ[types.Uint8], 0), smt.Array(smt.Int, bytesInner))
 			e.ghostSet(st, gWData, key, c.App("arr.splice."+sortTag(smt.BV(8)), bytesInner, e.ghostGet(st, gWData, key), cnt, c.Select(arr, p.Terms[0]), p.Terms[1], p.Terms[2]))
 			e.ghostSet(st, gCount, key, bvadd(c, cnt, p.Terms[2]))
+			e.syncBuffer(st, key, nil)
 			return Val{Typ: rt, Terms: []*smt.Term{p.Terms[2], c.IntLit(0), c.IntLit(0)}}
 		},
 		"(*bytes.Buffer).WriteString": func(e *Engine, f *frame, st *State, args []Val, rt types.Type, pos string) Val {
@@ -192,6 +206,7 @@ func init() {
 			cnt := e.writerCount(st, key)
 			e.ghostSet(st, gWData, key, c.App("arr.splice."+sortTag(smt.BV(8)), bytesInner, e.ghostGet(st, gWData, key), cnt, c.App("gs.bytes", bytesInner, args[1].Terms[0]), c.BVLit64(0, 64), n))
 			e.ghostSet(st, gCount, key, bvadd(c, cnt, n))
+			e.syncBuffer(st, key, nil)
 			return Val{Typ: rt, Terms: []*smt.Term{n, c.IntLit(0), c.IntLit(0)}}
 		},
 		"(*bytes.Buffer).WriteByte": func(e *Engine, f *frame, st *State, args []Val, rt types.Type, pos string) Val {
@@ -201,12 +216,14 @@ func init() {
 			cnt := e.writerCount(st, key)
 			e.ghostSet(st, gWData, key, c.Store(e.ghostGet(st, gWData, key), cnt, args[1].Terms[0]))
 			e.ghostSet(st, gCount, key, bvadd(c, cnt, c.BVLit64(1, 64)))
+			e.syncBuffer(st, key, nil)
 			return Val{Typ: rt, Terms: []*smt.Term{c.IntLit(0), c.IntLit(0)}}
 		},
 		"(*bytes.Buffer).Len": func(e *Engine, f *frame, st *State, args []Val, rt types.Type, pos string) Val {
 			c := e.C
 			e.nilCheck(st, args[0], pos, "nil *bytes.Buffer")
 			key := args[0].Terms[0]
+			e.bufferInv(st, key)
 			cnt := e.writerCount(st, key)
 			pos0 := e.ghostGet(st, gPos, key)
 			e.assume(st, c.And(bvle(c, c.BVLit64(0, 64), pos0), bvle(c, pos0, cnt)))
@@ -216,6 +233,7 @@ func init() {
 			c := e.C
 			e.nilCheck(st, args[0], pos, "nil *bytes.Buffer")
 			key := args[0].Terms[0]
+			e.bufferInv(st, key)
 			cnt := e.writerCount(st, key)
 			pos0 := e.ghostGet(st, gPos, key)
 			e.assume(st, c.And(bvle(c, c.BVLit64(0, 64), pos0), bvle(c, pos0, cnt)))
@@ -315,6 +333,14 @@ func init() {
 		return Val{Typ: rt, Terms: []*smt.Term{s}}
 	}
 	registerBigModels()
+	callModels["hash/crc32.Update"] = func(e *Engine, f *frame, st *State, args []Val, rt types.Type, pos string) Val {
+		c := e.C
+		// the standard CRC-32 state function: depends on the previous state and on the bytes only
+		arr := e.heapArr(st, elemName(types.Typ[types.Uint8], 0), smt.Array(smt.Int, bytesInner))
+		p := args[2]
+		win := e.canonWindow(c.Select(arr, p.Terms[0]), p.Terms[1], p.Terms[2])
+		return Val{Typ: rt, Terms: []*smt.Term{c.App("crc32.update", smt.BV(32), args[0].Terms[0], win, p.Terms[2])}}
+	}
 	callModels["reflect.MakeSlice"] = func(e *Engine, f *frame, st *State, args []Val, rt types.Type, pos string) Val {
 		c := e.C
 		ln, cp := args[1].Terms[0], args[2].Terms[0]
@@ -324,14 +350,16 @@ func init() {
 	callModels["github.com/pierrec/lz4/v4.CompressBlockBound"] = func(e *Engine, f *frame, st *State, args []Val, rt types.Type, pos string) Val {
 		c := e.C
 		n := args[0].Terms[0]
-		return Val{Typ: rt, Terms: []*smt.Term{bvadd(c, bvadd(c, n, c.Op("bvsdiv", smt.BV(64), n, c.BVLit64(255, 64))), c.BVLit64(16, 64))}}
+		q, _ := e.divMod(st, n, c.BVLit64(255, 64), true)
+		return Val{Typ: rt, Terms: []*smt.Term{bvadd(c, bvadd(c, n, q), c.BVLit64(16, 64))}}
 	}
 	callModels["github.com/pierrec/lz4/v4.CompressBlock"] = func(e *Engine, f *frame, st *State, args []Val, rt types.Type, pos string) Val {
 		c := e.C
 		src, dst := args[0], args[1]
 		errv, okc := e.maybeError(st, errorType(), "lz4c")
 		n := c.Fresh("lz4c.n", smt.BV(64))
-		bound := bvadd(c, bvadd(c, src.Terms[2], c.Op("bvsdiv", smt.BV(64), src.Terms[2], c.BVLit64(255, 64))), c.BVLit64(16, 64))
+		q, _ := e.divMod(st, src.Terms[2], c.BVLit64(255, 64), true)
+		bound := bvadd(c, bvadd(c, src.Terms[2], q), c.BVLit64(16, 64))
 		e.assume(st, c.And(bvle(c, c.BVLit64(0, 64), n), bvle(c, n, dst.Terms[2]),
 			c.Implies(bvle(c, bound, dst.Terms[2]), c.And(okc, bvle(c, c.BVLit64(1, 64), n))),
 			c.Implies(c.Not(okc), c.Eq(n, c.BVLit64(0, 64)))))
@@ -382,6 +410,7 @@ func init() {
 		e.ghostSet(st, gPos, rkey, bvadd(c, pos0, k))
 		e.ghostSet(st, gWData, key, c.App("arr.splice."+sortTag(smt.BV(8)), bytesInner, e.ghostGet(st, gWData, key), cnt, e.ghostGet(st, pData, rkey), pos0, k))
 		e.ghostSet(st, gCount, key, bvadd(c, cnt, k))
+		e.syncBuffer(st, key, nil)
 		return Val{Typ: rt, Terms: []*smt.Term{k, errv.Terms[0], errv.Terms[1]}}
 	}
 	callModels["(*bytes.Buffer).WriteTo"] = func(e *Engine, f *frame, st *State, args []Val, rt types.Type, pos string) Val {
@@ -589,14 +618,18 @@ func modelReadFull(e *Engine, f *frame, st *State, args []Val, rt types.Type, po
 	key := streamKey(r)
 	pos0, avail := e.readerState(st, key)
 	errv, okc := e.maybeError(st, errorType(), "readfull")
-	n := c.Fresh("readfull.n", smt.BV(64))
-	e.assume(st, c.And(bvle(c, c.BVLit64(0, 64), n), bvle(c, n, buf.Terms[2]), bvle(c, bvadd(c, pos0, n), avail),
-		c.Eq(okc, c.Eq(n, buf.Terms[2]))))
+	part := c.Fresh("readfull.n", smt.BV(64))
+	// success: exactly len(buf) bytes; failure: fewer
+	n := c.Ite(okc, buf.Terms[2], part)
+	e.assume(st, c.And(bvle(c, c.BVLit64(0, 64), part), c.Op("bvslt", smt.Bool, part, buf.Terms[2]), bvle(c, bvadd(c, pos0, n), avail)))
 	e.ghostSet(st, gPos, key, bvadd(c, pos0, n))
 	e.frameCheckRef(f, st, buf.Terms[0], "elem:uint8", pos)
 	name := elemName(types.Typ[types.Uint8], 0)
 	arr := e.heapArr(st, name, smt.Array(smt.Int, bytesInner))
-	st.Heap[name] = c.Store(arr, buf.Terms[0], c.App("arr.splice."+sortTag(smt.BV(8)), bytesInner, c.Select(arr, buf.Terms[0]), buf.Terms[1], e.ghostGet(st, pData, key), pos0, n))
+	spl := func(k *smt.Term) *smt.Term {
+		return c.App("arr.splice."+sortTag(smt.BV(8)), bytesInner, c.Select(arr, buf.Terms[0]), buf.Terms[1], e.ghostGet(st, pData, key), pos0, k)
+	}
+	st.Heap[name] = c.Store(arr, buf.Terms[0], c.Ite(okc, spl(buf.Terms[2]), spl(part)))
 	return Val{Typ: rt, Terms: []*smt.Term{n, errv.Terms[0], errv.Terms[1]}}
 }
 
@@ -627,6 +660,7 @@ func modelWriterWrite(e *Engine, f *frame, st *State, recv Val, args []Val, rt t
 	arr := e.heapArr(st, elemName(types.Typ[types.Uint8], 0), smt.Array(smt.Int, bytesInner))
 	e.ghostSet(st, gWData, key, c.App("arr.splice."+sortTag(smt.BV(8)), bytesInner, e.ghostGet(st, gWData, key), cnt, c.Select(arr, p.Terms[0]), p.Terms[1], n))
 	e.ghostSet(st, gCount, key, bvadd(c, cnt, n))
+	e.syncBuffer(st, key, recv.Terms[0])
 	return Val{Typ: rt, Terms: []*smt.Term{n, errv.Terms[0], errv.Terms[1]}}
 }
 
@@ -654,7 +688,7 @@ func modelNewBuffer(e *Engine, f *frame, st *State, args []Val, rt types.Type, p
 	b := args[0]
 	ref := e.newRef(st)
 	arr := e.heapArr(st, elemName(types.Typ[types.Uint8], 0), smt.Array(smt.Int, bytesInner))
-	win := c.App("arr.window."+sortTag(smt.BV(8)), bytesInner, c.Select(arr, b.Terms[0]), b.Terms[1], b.Terms[2])
+	win := e.window(c.Select(arr, b.Terms[0]), b.Terms[1], b.Terms[2])
 	e.ghostSet(st, gCount, ref, b.Terms[2])
 	e.ghostSet(st, gPos, ref, c.BVLit64(0, 64))
 	e.ghostSet(st, gWData, ref, win)
@@ -671,11 +705,68 @@ func modelNewReader(e *Engine, f *frame, st *State, args []Val, rt types.Type, p
 	b := args[0]
 	ref := e.newRef(st)
 	arr := e.heapArr(st, elemName(types.Typ[types.Uint8], 0), smt.Array(smt.Int, bytesInner))
-	win := c.App("arr.window."+sortTag(smt.BV(8)), bytesInner, c.Select(arr, b.Terms[0]), b.Terms[1], b.Terms[2])
+	win := e.window(c.Select(arr, b.Terms[0]), b.Terms[1], b.Terms[2])
 	e.ghostSet(st, gPos, ref, c.BVLit64(0, 64))
 	e.ghostSet(st, pData, ref, win)
 	e.ghostSet(st, pAvail, ref, b.Terms[2])
 	v := Val{Typ: rt, Terms: []*smt.Term{ref}}
 	e.wrapPtr(&v)
 	return v
+}
+
+// window is the view of a byte array starting at off (length n): identical to the array when off is 0 (bytes beyond
+// n are never legitimately read), otherwise an uninterpreted shift.
+func (e *Engine) window(inner, off, n *smt.Term) *smt.Term {
+	if v, ok := off.BVValue(); ok && v.Sign() == 0 {
+		return inner
+	}
+	return e.C.App("arr.window."+sortTag(smt.BV(8)), bytesInner, inner, off, n)
+}
+
+// canonWindow names the byte string inner[off, off+n) so that equal byte strings obtained in the usual ways get the
+// same term: reading back exactly the region that was spliced in yields the source's window.
+func (e *Engine) canonWindow(inner, off, n *smt.Term) *smt.Term {
+	c := e.C
+	if inner.Op == "ite" && len(inner.Args) == 3 {
+		return c.Ite(inner.Args[0], e.canonWindow(inner.Args[1], off, n), e.canonWindow(inner.Args[2], off, n))
+	}
+	for strings.HasPrefix(inner.Op, "arr.splice.") && len(inner.Args) == 5 {
+		// splice(a, o, s, so, m): region [o, o+m) of the result is s[so, so+m)
+		if inner.Args[1] == off && inner.Args[4] == n {
+			inner, off = inner.Args[2], inner.Args[3]
+			continue
+		}
+		break
+	}
+	if strings.HasPrefix(inner.Op, "arr.window.") && len(inner.Args) == 3 {
+		if v, ok := off.BVValue(); ok && v.Sign() == 0 && inner.Args[2] == n {
+			inner, off = inner.Args[0], inner.Args[1]
+		}
+	}
+	return c.App("bytes.win", bytesInner, inner, off, n)
+}
+
+// syncBuffer keeps the reader view (avail, data) of a *bytes.Buffer equal to what has been written to it; tag is the
+// dynamic type tag when the writer is only known as an interface (nil: statically a *bytes.Buffer).
+func (e *Engine) syncBuffer(st *State, key, tag *smt.Term) {
+	c := e.C
+	cnt := c.Select(e.ghost(st, gCount), key)
+	wd := c.Select(e.ghost(st, gWData), key)
+	if tag == nil {
+		st.Heap[pAvail] = c.Store(e.ghost(st, pAvail), key, cnt)
+		st.Heap[pData] = c.Store(e.ghost(st, pData), key, wd)
+		return
+	}
+	isBuf := c.Eq(tag, c.IntLit(int64(e.typeTag(bufferPtrType(e)))))
+	st.Heap[pAvail] = c.Store(e.ghost(st, pAvail), key, c.Ite(isBuf, cnt, c.Select(e.ghost(st, pAvail), key)))
+	st.Heap[pData] = c.Store(e.ghost(st, pData), key, c.Ite(isBuf, wd, c.Select(e.ghost(st, pData), key)))
+}
+
+func bufferPtrType(e *Engine) types.Type {
+	for _, p := range e.W.Prog.AllPackages() {
+		if p.Pkg.Path() == "bytes" {
+			return types.NewPointer(p.Pkg.Scope().Lookup("Buffer").Type())
+		}
+	}
+	panic("package bytes not loaded")
 }
